@@ -573,7 +573,8 @@ func runQuery(c *mon.Case, r *rand.Rand, w *world, nfaces int, t *target, fo *fi
 		return d
 	}
 	before := atomic.LoadInt64(&nOpt)
-	got := find(mkQuery(mkOpts()))
+	q0 := mkQuery(mkOpts())
+	got := find(q0)
 	usedOpt := atomic.LoadInt64(&nOpt) > before
 	if c.I < 3 {
 		c.Sample(det(map[string]any{"results": len(got)}))
@@ -587,6 +588,18 @@ func runQuery(c *mon.Case, r *rand.Rand, w *world, nfaces int, t *target, fo *fi
 		tag = "furthest"
 	}
 	tag += "/" + t.kind
+	// the same question put again to the same query object must get the same answer
+	if again := find(q0); len(again) != len(got) {
+		c.Violation(tag+"/FindEdges/second-call-on-same-query-differs/wrong-answer", fmt.Sprintf("FindEdges returned %d results, the same call repeated on the same query object %d", len(got), len(again)), det(nil))
+	} else {
+		for i := range got {
+			if got[i].Distance() != again[i].Distance() || got[i].ShapeID() != again[i].ShapeID() || got[i].EdgeID() != again[i].EdgeID() {
+				c.Violation(tag+"/FindEdges/second-call-on-same-query-differs/wrong-answer", fmt.Sprintf("result %d differs between two identical calls on one query object", i), det(nil))
+				break
+			}
+		}
+	}
+	c.Count("queries.repeated_on_same_object", 1)
 	scan := map[[2]int32]s1.ChordAngle{}
 	for _, x := range all {
 		scan[[2]int32{x.shape, x.edge}] = x.d
